@@ -337,7 +337,8 @@ class Check:
         lines = []
         nviol = 0
         reported_known = set()
-        for v in self.violations:
+        # concrete failing inputs (oracle violations) are reported before broken correspondences
+        for v in sorted(self.violations, key=lambda v: 0 if v["found"] else 1):
             k = (self.prop, v["key"])
             if k in known:
                 if k not in reported_known:
